@@ -372,6 +372,20 @@ def explore(pid, tier, seed, ex):
             for p in ("relchk", "devwrap"):
                 ex.compare(sample_third(lines), p, domain, label + "/" + p)
 
+    import diffguide
+    hints = diffguide.hints()
+    ex.hints = hints
+    if hints["changed_lines"] and pid not in ("C17", "C18", "C19"):
+        # the working tree differs from the reference source: steer sizes / counts / keys / characters by the literals of the changed lines
+        hl = streams.s_hints(g, hints, tier)
+        if pid == "C03":
+            ra = R.impl(hl); ma = R.model(hl); ex.account(hl, ra)
+            for l, a, m in zip(hl, ra, ma):
+                if l.startswith("apply ") and (jl.is_bad(a) or a.split("\t")[0].split(" ")[0] != m.split("\t")[0].split(" ")[0]):
+                    ex.violate("diff-guided: acceptance / rejection differs from the model", l, a, m)
+                    if len(ex.violations) > 5: break
+        else:
+            both(hl, None if pid in ("C01", "C04") else {pid}, "diff-guided")
     if pid not in ("C03", "C17", "C18", "C19"):
         # sizes / counts / relations / spellings a random generator is unlikely to produce; attributed by outermost operator
         both(streams.s_scale(g, tier), None if pid in ("C01", "C04") else {pid}, "scale-and-relations")
@@ -722,7 +736,12 @@ def run_c17(ex, g, tier):
     failing = [l for l in special if iso2[l].startswith("err")]
     deepfail = {"in": [1, 2]}
     for _ in range(24): deepfail = {"or": [0, {"if": [1, deepfail]}]}
-    hist = ([gen.app(deepfail, None)] + failing) * (70 if tier == "quick" else 400) + special
+    reps = 70 if tier == "quick" else 400
+    import diffguide
+    hh = diffguide.hints()
+    for n_ in hh.get("ints", []):
+        if n_ <= 20000: reps = max(reps, n_ // 4 + 8)        # enough failing calls (25 lazy levels each, 23 calls per repetition) to cross any counter limit named in the change
+    hist = ([gen.app(deepfail, None)] + failing) * reps + special
     res = R.impl(hist)
     ex.account(hist, res)
     iso2[gen.app(deepfail, None)] = R.impl([gen.app(deepfail, None)])[0]
@@ -855,7 +874,7 @@ def main():
                samples=ex.samples if ex else [], exhaustive=False,
                outcomes=dict(ex.outcomes) if ex else {}, partition_coverage=dict(sorted(ex.cells.items())) if ex else {}, operator_histogram=dict(ex.ops.most_common()) if ex else {},
                disagreements_attributed_elsewhere=[dict(owner=f["owner"], case=f["case"], impl=f["impl"], model=f["model"]) for f in (ex.foreign[:10] if ex else [])],
-               tie=dict(tables=tie_msg, audits=audit_res["summary"]), proof_problems=[p["detail"][:300] for p in problems], notes=ex.notes if ex else [],
+               tie=dict(tables=tie_msg, audits=audit_res["summary"]), diff_guidance=getattr(ex, "hints", None) if ex else None, proof_problems=[p["detail"][:300] for p in problems], notes=ex.notes if ex else [],
                leanchecker=proof.get("leanchecker", "not run in this tier"),
                spec_validation_against_v8=spec_val if spec_val is not None else "not applicable to this property")
     ev = dict(property_id=pid, tier=tier, seed=seed, level="proof", coverage=cov, wall_s=round(wall, 1), violations=len(new_viol),
